@@ -139,7 +139,8 @@ CHECKS["C04"] = dict(
     technique="property-based testing of generated concurrent programs (rapid) against a real GoChannel with history invariants; schedule perturbation and forced overlaps through hook points; race detector",
     level_text="Generated concurrent Publish/Subscribe programs over all configurations run against the real GoChannel; the complete history (every Publish interval, Subscribe interval, receipt with its message object/content/context, settlement) is recorded and checked: delivery to every current subscriber, redelivery grammar, copy separation, context life cycle.",
     level_note=_GC_NOTE,
-    steps=[dict(name="delivery", run="^TestDelivery$", quick=500, thorough=160000, shards_thorough=16)],
+    steps=[dict(name="delivery", run="^TestDelivery$", quick=500, thorough=160000, shards_thorough=14),
+           dict(name="holding", run="^TestHoldingSubscriberDoesNotDelayOthers$", quick=300, thorough=60000, shards_thorough=2)],
 )
 CHECKS["C05"] = dict(
     pkg="c05", race=True, level="exploration", timeout_quick=900, timeout_thorough=3600,
